@@ -33,6 +33,8 @@ import (
 	"google.golang.org/protobuf/types/dynamicpb"
 )
 
+func jsonUnmarshal(b []byte, v any) error { return json.Unmarshal(b, v) }
+
 // ---- schema DSL: package vschema ----
 const (
 	kBool   = vschema.KBool
@@ -966,6 +968,10 @@ func main() {
 	r := vc.NewRand(vc.Seed())
 	if len(os.Args) > 2 && os.Args[2] == "e2e" {
 		e2ePart(w, r)
+		return
+	}
+	if len(os.Args) > 2 && os.Args[2] == "iso" {
+		isoPart(w, r)
 		return
 	}
 	var cases []*tcase
